@@ -36,7 +36,7 @@ def run(ctx):
         return D.tx_decoded(m) if isinstance(m, D.data_msg.TxMsg) else D.rx_decoded(m)
 
     for fi in range(nfiles):
-        n = rng.randint(1, 4)
+        n = rng.randint(1, 4) if rng.random() < 0.75 else rng.randint(5, 9)
         small = ctx.tier == "quick" or rng.random() < 0.8
         origs = []
         used = set()
@@ -113,6 +113,8 @@ def run(ctx):
             else:
                 reads += [("all", rng.choice([None] + list(range(n + 2))), rng.choice([None] + list(range(1, n + 2)))) for _ in range(2)]
             reads += [("idx", i, None) for i in range(n + 1)]
+            if rng.random() < 0.7:
+                rng.shuffle(reads)          # the reader object is reused: no read may depend on what was read before
             for kind, a, b in reads:
                 e = dict(e="read", cut=cut, kind=kind, skip=-1, count=-1, idx=-1, eq=True)
                 try:
